@@ -242,7 +242,7 @@ def P2(ctx, facts, allow_checkout_drop=True, aspects=ALL_P2):
         allowed[co_drop.key] = "Checkout pinned drop"
     raw_sites = _push_sites(facts)
     names = [f.nkey for f in entrance_fns(facts)] or ["client::pool::PoolInner::push"]
-    units = {k: facts.unit(facts.fns[k]) for k in allowed}
+    units = {k: facts.unit(facts.fns[k], expand=True) for k in allowed}
     # who may call: an allowed holder, or a private helper that only the allowed holders' units contain
     for c in raw_sites:
         g = c.fn
